@@ -207,3 +207,17 @@ def run(ctx):
              "accepted layout has representable, ordered, non-overlapping begins (bounded)")
     nb = r8begins.check(ctx, ctx.need_fn(prog, "NC_begins"), "R8.begins", deep=(ctx.tier == "thorough"))
     ctx.require(nb >= 1000, "R8.begins: only %d layouts evaluated" % nb)
+    from rules import r12offlimit
+    ctx.rule("R12.offlimit", "a 64-bit file offset is refused for exceeding 2^31-1 (NC_EINTOVERFLOW) only where the function goes on to "
+             "put that value into 32 bits")
+    _p = ctx.program(groups=["lib"])
+    _eo = None
+    for u in _p.units.values():
+        if "NC_EINTOVERFLOW" in u.macros:
+            try:
+                _eo = int(u.macros["NC_EINTOVERFLOW"].strip("() "), 0)
+            except ValueError:
+                pass
+            break
+    ctx.require(_eo is not None, "macro NC_EINTOVERFLOW not found / not a constant")
+    r12offlimit.check(ctx, _p, "R12.offlimit", 2, _eo)
